@@ -34,6 +34,21 @@ def seeded_mutants(prop: str) -> list:
     return out
 
 
+def kept_twins(prop: str) -> list:
+    """Behaviour-preserving refactorings by independent sub-agents (/verif/twins/<id>/patch.diff):
+    every property's check must stay silent on each of them."""
+    import glob
+
+    here = os.path.dirname(os.path.dirname(os.path.abspath(__file__)))
+    out = []
+    for d in sorted(glob.glob(os.path.join(here, "twins", "*", "patch.diff"))):
+        tid = os.path.basename(os.path.dirname(d))
+        with open(d) as fh:
+            diff = fh.read()
+        out.append({"id": f"twin-{tid}", "prop": prop, "file": "", "rules": [], "what": "behaviour-preserving refactoring by an independent sub-agent", "diff": diff, "kind": "twin"})
+    return out
+
+
 def _apply(project_sources: dict, m: dict):
     if "diff" in m:
         from .udiff import apply_unified
@@ -73,19 +88,23 @@ def _run_one(args):
 def run_for_check(prop: str, project: Project, tier: str):
     """Positive controls (quick: a few breaking mutants per property; thorough: all mutants + twins)."""
     sources = {m.relpath: m.src for m in project.modules.values()}
-    muts = [m for m in ops.MUTANTS if m["prop"] == prop] + (seeded_mutants(prop) if tier == "thorough" else [])
+    muts = [m for m in ops.MUTANTS if m["prop"] == prop]
+    seeds = seeded_mutants(prop)
     breaking = [m for m in muts if m["kind"] == "break"]
     twins = [m for m in muts if m["kind"] == "twin"]
     if tier != "thorough":
-        # one control per rule, at most QUICK_CONTROLS_PER_PROP
+        # positive controls: one per rule from the catalogue, then the seeded changes
         seen, chosen = set(), []
         for m in breaking:
             r = m["rules"][0]
             if r not in seen and m.get("control", True):
                 seen.add(r)
                 chosen.append(m)
-        breaking = chosen[:QUICK_CONTROLS_PER_PROP]
+        breaking = (chosen[: QUICK_CONTROLS_PER_PROP - 1] + [s for s in seeds if s.get("expect_detected", True)])[:QUICK_CONTROLS_PER_PROP]
         twins = []
+    else:
+        breaking = breaking + seeds
+        twins = twins + kept_twins(prop)
     t0 = time.time()
     jobs = [(prop, m, sources) for m in breaking + twins]
     results = {}
@@ -135,7 +154,9 @@ def run_for_check(prop: str, project: Project, tier: str):
 def main(argv: list) -> int:
     """./check selftest [ID...] : run the whole catalogue and print a table."""
     project = Project(repo_root())
-    props = [a.upper() for a in argv] or sorted({m["prop"] for m in ops.MUTANTS})
+    from sa.driver import PROPS
+
+    props = [a.upper() for a in argv] or list(PROPS)
     bad = 0
     for prop in props:
         controls, extra = run_for_check(prop, project, "thorough")
